@@ -130,6 +130,8 @@ func (p *Prog) normalise() {
 				}
 				return true
 			})
+			normaliseChains(f)
+			inlineCondTemps(info, f)
 		}
 	}
 }
@@ -270,4 +272,177 @@ func (p *Prog) LookupObj(pkgRel, name string) types.Object {
 		return nil
 	}
 	return pkg.Types.Scope().Lookup(name)
+}
+
+// normaliseChains gives `if a {A} else if b {B} else {D}` and
+// `switch { case a: A; case b: B; default: D }` one shape: the tagless switch.
+// A chain is rewritten when it has at least one `else if`, no link has an init
+// statement, and no arm contains an unlabeled break of an enclosing loop (that
+// break would change its target). Case expressions are unparenthesised and a
+// top-level `x || y` is split into the case list `x, y` (same meaning in a
+// tagless switch). The rules then see one form whichever way the code is written.
+func normaliseChains(f *ast.File) {
+	breaks := func(stmts []ast.Stmt) bool {
+		found := false
+		var walk func(n ast.Node)
+		walk = func(n ast.Node) {
+			ast.Inspect(n, func(m ast.Node) bool {
+				switch x := m.(type) {
+				case *ast.BranchStmt:
+					if x.Tok == token.BREAK && x.Label == nil {
+						found = true
+					}
+				case *ast.ForStmt, *ast.RangeStmt, *ast.SwitchStmt, *ast.TypeSwitchStmt, *ast.SelectStmt, *ast.FuncLit:
+					return false
+				}
+				return true
+			})
+		}
+		for _, st := range stmts {
+			walk(st)
+		}
+		return found
+	}
+	var split func(e ast.Expr, out []ast.Expr) []ast.Expr
+	split = func(e ast.Expr, out []ast.Expr) []ast.Expr {
+		e = ast.Unparen(e)
+		if be, ok := e.(*ast.BinaryExpr); ok && be.Op == token.LOR {
+			return split(be.Y, split(be.X, out))
+		}
+		return append(out, e)
+	}
+	conv := func(ifs *ast.IfStmt) ast.Stmt {
+		if _, chained := ifs.Else.(*ast.IfStmt); !chained {
+			return nil
+		}
+		var clauses []ast.Stmt
+		for cur := ifs; ; {
+			if cur.Init != nil || breaks(cur.Body.List) {
+				return nil
+			}
+			clauses = append(clauses, &ast.CaseClause{Case: cur.Cond.Pos(), List: split(cur.Cond, nil), Colon: cur.Body.Lbrace, Body: cur.Body.List})
+			switch e := cur.Else.(type) {
+			case *ast.IfStmt:
+				cur = e
+				continue
+			case *ast.BlockStmt:
+				if breaks(e.List) {
+					return nil
+				}
+				clauses = append(clauses, &ast.CaseClause{Case: e.Lbrace, List: nil, Colon: e.Lbrace, Body: e.List})
+			}
+			break
+		}
+		return &ast.SwitchStmt{Switch: ifs.If, Body: &ast.BlockStmt{Lbrace: ifs.Body.Lbrace, List: clauses, Rbrace: ifs.End() - 1}}
+	}
+	rewrite := func(list []ast.Stmt) {
+		for i, st := range list {
+			if ifs, ok := st.(*ast.IfStmt); ok {
+				if r := conv(ifs); r != nil {
+					list[i] = r
+				}
+			}
+		}
+	}
+	ast.Inspect(f, func(n ast.Node) bool {
+		switch x := n.(type) {
+		case *ast.BlockStmt:
+			rewrite(x.List)
+		case *ast.CaseClause:
+			rewrite(x.Body)
+		case *ast.CommClause:
+			rewrite(x.Body)
+		case *ast.SwitchStmt:
+			if x.Tag == nil {
+				for _, st := range x.Body.List {
+					if cc, ok := st.(*ast.CaseClause); ok && cc.List != nil {
+						var l []ast.Expr
+						for _, e := range cc.List {
+							l = split(e, l)
+						}
+						cc.List = l
+					}
+				}
+			}
+		}
+		return true
+	})
+}
+
+// inlineCondTemps gives `ok := f(x); if ok {…}` and `if f(x) {…}` one shape:
+// a boolean local defined from a call by the statement directly in front of an
+// `if` without init, used exactly once in the whole file and that once inside
+// the if's condition, is replaced by the call (the definition becomes an empty
+// statement). Evaluation order is unchanged because the two are adjacent.
+func inlineCondTemps(info *types.Info, f *ast.File) {
+	uses := map[types.Object]int{}
+	ast.Inspect(f, func(n ast.Node) bool {
+		if id, ok := n.(*ast.Ident); ok {
+			if o := info.Uses[id]; o != nil {
+				uses[o]++
+			}
+		}
+		return true
+	})
+	var replace func(e *ast.Expr, o types.Object, with ast.Expr) bool
+	replace = func(e *ast.Expr, o types.Object, with ast.Expr) bool {
+		switch x := (*e).(type) {
+		case *ast.Ident:
+			if info.Uses[x] == o {
+				*e = with
+				return true
+			}
+		case *ast.ParenExpr:
+			return replace(&x.X, o, with)
+		case *ast.UnaryExpr:
+			return replace(&x.X, o, with)
+		case *ast.BinaryExpr:
+			return replace(&x.X, o, with) || replace(&x.Y, o, with)
+		}
+		return false
+	}
+	rewrite := func(list []ast.Stmt) []ast.Stmt {
+		var out []ast.Stmt
+		for i := 0; i < len(list); i++ {
+			out = append(out, list[i])
+			if i+1 >= len(list) {
+				continue
+			}
+			as, ok := list[i].(*ast.AssignStmt)
+			if !ok || as.Tok != token.DEFINE || len(as.Lhs) != 1 || len(as.Rhs) != 1 {
+				continue
+			}
+			id, ok := as.Lhs[0].(*ast.Ident)
+			if !ok {
+				continue
+			}
+			o := info.Defs[id]
+			call, isCall := as.Rhs[0].(*ast.CallExpr)
+			if o == nil || !isCall || uses[o] != 1 {
+				continue
+			}
+			if b, isBasic := o.Type().Underlying().(*types.Basic); !isBasic || b.Kind() != types.Bool {
+				continue
+			}
+			ifs, ok := list[i+1].(*ast.IfStmt)
+			if !ok || ifs.Init != nil {
+				continue
+			}
+			if replace(&ifs.Cond, o, call) {
+				out = out[:len(out)-1]
+			}
+		}
+		return out
+	}
+	ast.Inspect(f, func(n ast.Node) bool {
+		switch x := n.(type) {
+		case *ast.BlockStmt:
+			x.List = rewrite(x.List)
+		case *ast.CaseClause:
+			x.Body = rewrite(x.Body)
+		case *ast.CommClause:
+			x.Body = rewrite(x.Body)
+		}
+		return true
+	})
 }
